@@ -172,9 +172,10 @@ let () = iter_lines (fun line ->
        | Inl _ -> print_endline "rej"
        | Inr s ->
            (* later libjpeg checks the model knows: lossy needs precision 8 / 12, lossless + arithmetic is not implemented *)
-           (match select_modules false s.ts_lossless s.ts_arith s.ts_progressive s.ts_prec (zi 1) s.ts_optimize with
-            | Inl _ -> print_endline "rej"
-            | Inr _ -> print_endline "any"))
+           (* module selection by the tree parsed out of jcinit.c *)
+           (match select_modules_gen false s.ts_lossless s.ts_arith s.ts_progressive s.ts_prec (zi 1) s.ts_optimize with
+            | Some (Inr _) -> print_endline "any"
+            | _ -> print_endline "rej"))
   | [ "ref"; _nbx; _nby; _opt ] ->
       let counts = ints (List.nth fs 1) in
       let blk c = let (c, extra) = if c >= 100 then (c - 100, true) else (c, false) in
